@@ -7,4 +7,9 @@ mkdir -p .cache evidence out
 [ -f replay/Cargo.lock ] || cp /repo/Cargo.lock replay/Cargo.lock
 python3-vt m2s/mirdump.py wac-types wac-graph wac-parser wac-resolver
 (cd replay && RUSTFLAGS="--cfg wac_verif" CARGO_TARGET_DIR=/verif/.cache/replay-target cargo build --offline -q)
+[ -f fsreplay/Cargo.lock ] || cp replay/Cargo.lock fsreplay/Cargo.lock
+python3-vt m2s/mirdump.py wac-resolver+wat wac-resolver+wit
+for f in none wat wit; do
+  (cd fsreplay && CARGO_TARGET_DIR=/verif/.cache/fsreplay-target-$f cargo build --offline -q $( [ $f != none ] && echo --features $f ))
+done
 echo setup ok
